@@ -89,8 +89,20 @@ def obj_float(name):
 def obj_tree(name):
     def size(trees):
         return np.array([float(len(t)) for t in trees])
+    def own_depth(t):
+        # computed here from the recorded arities, not through the library (the objective must not
+        # depend on library state)
+        depth, stack = 0, [(1, 0)]
+        for a in t._n_args:
+            c, lv = stack.pop()
+            depth = max(depth, lv)
+            if c > 1:
+                stack.append((c - 1, lv))
+            if a > 0:
+                stack.append((int(a), lv + 1))
+        return float(depth)
     if name in ("onemax", "sphere"):
-        return lambda trees: -np.abs(size(trees) - 9.0) + 0.125 * np.array([float(t.get_max_level()) for t in trees])
+        return lambda trees: -np.abs(size(trees) - 9.0) + 0.125 * np.array([own_depth(t) for t in trees])
     if name == "plateau":
         return lambda trees: np.floor(size(trees) / 4.0)
     if name == "ties":
